@@ -390,6 +390,8 @@ def gen_options(rng, n, npt=None, allow=("restarts", "regression", "growing", "r
         up["init.random_initial_directions"] = True
         if r() < 0.3:
             up["init.random_directions_make_orthogonal"] = False
+        if r() < 0.4:
+            up["init.run_in_parallel"] = True     # all initial points evaluated first, processed afterwards (own bookkeeping code)
     if "tols" in allow and r() < 0.2:
         up["slow.max_slow_iters"] = int(rng.integers(2, 10))
         if r() < 0.5:
